@@ -73,9 +73,15 @@ where
                         last_flush = Instant::now();
                         let _ = sender.send(());
                     }
-                    Err(_) => {
+                    Err(std::sync::mpsc::RecvTimeoutError::Timeout) => {
                         inner.flush();
                         last_flush = Instant::now();
+                    }
+                    Err(std::sync::mpsc::RecvTimeoutError::Disconnected) => {
+                        // every handle is gone: emit what is still held and stop, instead of
+                        // spinning on a channel that reports `Disconnected` immediately forever
+                        inner.flush();
+                        break;
                     }
                 }
             }
